@@ -317,6 +317,8 @@ REJECTABLE = [
     ("two-placeholders", "(Definition/{n}/#, (Age/#, Label/#))"),
     ("no-placeholder", "(Definition/{n}/#, (Red, Blue))"),
     ("placeholder-unexpected", "(Definition/{n}, (Age/#, Blue))"),
+    ("two-placeholders-without-value-name", "(Definition/{n}, (Age/#, Label/#))"),
+    ("three-placeholders-without-value-name", "(Definition/{n}, (Age/#, (Label/#, ID/#)))"),
     ("name-with-slash", "(Definition/{n}/Sub, (Red))"),
     ("inner-def", "(Definition/{n}, (Def/Other, Blue))"),
     ("inner-def-expand", "(Definition/{n}, ((Def-expand/Other, (Red)), Blue))"),
